@@ -19,12 +19,11 @@ A. luna.gateware.usb.usb3.application.request.SuperSpeedSetupDecoder
 B. luna.gateware.usb.usb3.application.descriptor.GetDescriptorHandler(collection)
    Workload: collection of 1-7 descriptors (type, index, 1..90 bytes; plain list of tuples, or a real
    usb_protocol DeviceDescriptorCollection filled with the same raw descriptors), 14-26 requests: value = (type << 8 | index)
-   present, absent, or differing in one bit from a present one; wLength in {0, 1..5, len-1, len, len+1, len+8, len+256,
+   present, absent, or differing in one bit from a present one; wLength in {0, 1..5, len-1, len, len+1, len+8, 256*k + (0..len),
    0xFFFF, random}; value / length set 0-3 cycles before the one-cycle `start`; `tx.ready` profiles (always / random /
    bursty / low until valid / low on the last word).
    Oracle: known descriptor -> words on `tx` (transfer = valid != 0 & ready) concatenate to desc[:min(wLength, len)], all
-   words full except the final one whose byte mask is 0001/0011/0111/1111 and which carries `last`, `first` only... (not
-   judged), `tx_length` = that byte count in the first cycle of `tx.valid` (what the data packet transmitter latches), no
+   words full except the final one whose byte mask is 0001/0011/0111/1111 and which carries `last`, `tx_length` = that byte count in the first cycle of `tx.valid` (what the data packet transmitter latches), no
    `stall`; the stream starts within 8 cycles of `start` and words are held while not ready.  wLength 0 -> no word, no
    stall.  Unknown descriptor -> `stall` pulse 0..2 cycles after `start`, no word.
 
@@ -413,7 +412,8 @@ def handler_session(rng, res):
         else:
             key = (rng.randint(0, 255), rng.randint(0, 255))
         ln = len(table[key]) if key in table else rng.choice(COMMON_LENS)
-        wl = rng.choice([0, 1, 2, 3, 4, 5, ln - 1, ln - 1, ln, ln, ln + 1, ln + 8, ln + 256, 0xFFFF, rng.randint(0, ln + 8), rng.randint(1, max(1, ln))])
+        wl = rng.choice([0, 1, 2, 3, 4, 5, ln - 1, ln - 1, ln, ln, ln + 1, ln + 8, ln + 256, 0xFFFF, rng.randint(0, ln + 8), rng.randint(1, max(1, ln)),
+                         0x100 + rng.randint(0, ln), 0x8000 + rng.randint(0, ln), 256 * rng.randint(1, 255) + rng.randint(0, ln)])
         wl = max(0, min(0xFFFF, wl))
         return key, wl
 
@@ -461,7 +461,7 @@ def handler_session(rng, res):
                 res.bin("desc_known")
                 ln = len(table[key])
                 res.bin("wlength_0" if wl == 0 else "wlength_lt_len" if wl < ln else "wlength_eq_len" if wl == ln else "wlength_gt_len")
-                if wl == ln + 256:
+                if wl >= 256 and (wl & 0xFF) <= ln:
                     res.bin("wlength_len_plus_256")
                 if 0 < wl < ln and wl % 4:
                     res.bin("wlength_cuts_mid_word")
